@@ -12,10 +12,7 @@ binp = C.go_build(w, "./cmd/srvdrive", "srvdrive")
 env = dict(C.GOENV); env.update({"VERIF_IN": w + '/s.json', "VERIF_OUT": w + '/t.ndjson'})
 print("driver exit", C.run([binp], cwd=w, env=env, timeout=600)[0])
 ev = C.read_ndjson(w + '/t.ndjson')
-bi = -1
-for e in ev:
-    if e['ev'] == 'New':
-        bi += 1; e['expect'] = behs[bi].get('expect', {}); e['pipelined'] = 1 if behs[bi].get('pipelined') else 0
+sig.annotate(ev, behs)
 open(w + '/t2.ndjson', 'w').write("\n".join(json.dumps(e) for e in ev) + "\n")
 v = C.tlc_trace(w, "Trace_Signalling.tla", "Trace_Signalling.cfg", w + '/t2.ndjson', "trace_signalling.ndjson")
 print("lines", v.lines, "bads", v.bads)
